@@ -295,6 +295,19 @@ pub fn gen_seq(property: &str, profile: &str, seed: u64) -> Plan {
             plan.faults.push(FaultSpec { session: 0, sel: Sel::Nth { kind: IoKind::Read, class: PathClass::Index, n: sw.rng.below(150) }, action: FaultAction::Fail { errno: crate::world::EIO } });
         }
     }
+    if profile.split('+').any(|f| f == "opreadfault") {
+        // EIO on the n-th read that is not one of the checker's own queries: index loads (delete into a
+        // dumped closed blob, restore of a dumped blob), index dumps, background work. The operation hit
+        // may fail; whatever fallback it takes, no answer may change
+        // exactly one: the statements speak of a single failing file operation (two read errors in a row -
+        // index load, then the fallback scan of the blob - leave the blob's index empty; see DESIGN 13.8)
+        for _ in 0..1 {
+            let class = if sw.rng.chance(3, 4) { PathClass::Index } else { PathClass::Any };
+            let span = if sw.rng.chance(1, 2) { 6 } else { 40 };
+            let n = sw.rng.below(span);
+            plan.faults.push(FaultSpec { session: 0, sel: Sel::NthOpRead { class, n }, action: FaultAction::Fail { errno: crate::world::EIO } });
+        }
+    }
     plan
 }
 
